@@ -1,11 +1,12 @@
-\* C23 thorough: batches of up to 3 blocks over 3 block identities
+\* C23 thorough: batches of up to 3 blocks over 3 block identities, all eight callback configurations
 CONSTANTS
   Points = {1, 2, 3}
   MaxBlocks = 3
   HashCheck = TRUE
   Collect = TRUE
   FollowUps = {"none", "block", "range"}
+  Configs = {"none", "bf", "raw", "bf+raw", "bdf", "bf+bdf", "raw+bdf", "bf+raw+bdf"}
   Emit = TRUE
 SPECIFICATION Spec
-INVARIANTS TypeOK GetBlockSound GetBlockExact RangeOrder RangeReturn BusyLock EmitOutcome
-PROPERTIES Termination RangeCompletes
+INVARIANTS TypeOK GetBlockSound GetBlockExact RangeOrder RangeReturn BusyLock BatchDoneFuncIffConfigured ReleasedAtBatchDone BlockCallbackPresent EmitOutcome
+PROPERTIES Termination RangeCompletes EveryRequestSent
